@@ -462,6 +462,11 @@ def _ret_kind(fa, n, e, depth=0) -> Set[str]:
         return {"string"}
     if isinstance(e, ast.Subscript) and isinstance(e.slice, ast.Slice):
         return _ret_kind(fa, n, e.value, depth + 1)
+    if isinstance(e, ast.BinOp) and isinstance(e.op, (ast.Add, ast.Mod)):
+        a, b = _ret_kind(fa, n, e.left, depth + 1), _ret_kind(fa, n, e.right, depth + 1)
+        if a == {"string"} or b == {"string"}:
+            return {"string"}    # str + x / x + str either is a str or raises
+        return a | b
     if isinstance(e, ast.Call):
         nm = call_attr(e)
         if isinstance(e.func, ast.Name):
@@ -490,7 +495,8 @@ def _ret_kind(fa, n, e, depth=0) -> Set[str]:
     if isinstance(e, ast.Name):
         out = set()
         for o in prov(fa).of_name(n, e.id):
-            if o.kind in ("call", "sub", "const", "literal") and o.node is not None:
+            if o.kind in ("call", "sub", "const", "literal", "expr") and o.node is not None \
+                    and not isinstance(o.node, ast.stmt):
                 out |= _ret_kind(fa, o.at, o.node, depth + 1)
             else:
                 out.add("unknown")
